@@ -91,7 +91,7 @@ func checkC01(c *Checker) {
 		if name == "Read" {
 			dstStor, srcStor = sn, b.stor()
 		}
-		assume := channelsPositive(b)
+		assume := shapeAssume(b)
 		if ps := panicPaths(s); len(ps) > 0 {
 			c.refuted("C01-R4", name+"/panic-path", c.pos(ps[0].Pos), "explicit panic path in "+name+": "+ps[0].St.facts.String(), "")
 		}
@@ -117,7 +117,9 @@ func checkC01(c *Checker) {
 			c.expect(len(m) <= 1, "C01-R4", name, where, "no other store or external effect", "additional effects: "+describeEffects(m))
 			ret := valTerm(o.Ret)
 			want := specCeilDiv(N, b.ch())
-			okRet := ret != nil && eqInt(stripZeroGuard(ret, b.ch()), want)
+			asm := shapeAssume(b)
+			asm.add(Cond{Kind: CGE0, P: normInt(mkAtom("len("+sn+")", intT))})
+			okRet := ret != nil && eqUnder(ret, want, asm)
 			c.expect(okRet, "C01-R5", name, c.pos(o.Pos), "returns "+pretty(want), fmt.Sprintf("returns %s, expected %s", pretty(canonOrNil(ret)), pretty(want)))
 		}
 		if nret == 0 {
@@ -131,7 +133,7 @@ func checkC01(c *Checker) {
 		if !c.undecidedEffects("C01-R3", "WriteStriped", s) {
 			bn, sn := findParams(fn)
 			b := buf{bn}
-			assume := channelsPositive(b)
+			assume := shapeAssume(b)
 			guard := Cond{Kind: CNE0, P: normSign(normInt(b.ch()).Sub(normInt(mkAtom("len("+sn+")", intT))))}
 			for _, o := range panicPaths(s) {
 				if !hasFact(o.St.facts, guard) {
@@ -208,7 +210,7 @@ func checkC01(c *Checker) {
 		if !c.undecidedEffects("C01-R3", "ReadStriped", s) {
 			bn, sn := findParams(fn)
 			b := buf{bn}
-			assume := channelsPositive(b)
+			assume := shapeAssume(b)
 			guard := Cond{Kind: CNE0, P: normSign(normInt(b.ch()).Sub(normInt(mkAtom("len("+sn+")", intT))))}
 			for _, o := range panicPaths(s) {
 				if !hasFact(o.St.facts, guard) {
@@ -269,7 +271,10 @@ func checkC01(c *Checker) {
 		if !c.undecidedEffects("C01-R5", "ChannelLength", s) {
 			a, d := mkAtom(paramName(fn, 0), intT), mkAtom(paramName(fn, 1), intT)
 			ret := mergedRet(retPaths(s))
-			ok := ret != nil && eqInt(stripZeroGuard(ret, d), specCeilDiv(a, d))
+			asm := &Facts{}
+			asm.add(Cond{Kind: CGE0, P: normInt(d).AddInt(-1)})
+			asm.add(Cond{Kind: CGE0, P: normInt(a)})
+			ok := ret != nil && eqUnder(ret, specCeilDiv(a, d), asm)
 			c.expect(ok, "C01-R5", "ChannelLength", c.pos(fn.Pos()), "ceildiv(sliceLen, channels)", fmt.Sprintf("returns %s, expected ceildiv(%s, %s)", pretty(canonOrNil(ret)), a.Name, d.Name))
 		}
 	}
